@@ -516,7 +516,7 @@ def check_spokes(case):
 
 
 PARTS = [
-    Part("trap_grad", check_trap, {"quick": 20000, "thorough": 400000}, strategy=st_trap),
-    Part("min_trap", check_mintrap, {"quick": 20000, "thorough": 400000}, strategy=st_mintrap),
-    Part("spokes", check_spokes, {"quick": 6000, "thorough": 120000}, strategy=st_spokes),
+    Part("trap_grad", check_trap, {"quick": 30000, "thorough": 400000}, strategy=st_trap),
+    Part("min_trap", check_mintrap, {"quick": 30000, "thorough": 400000}, strategy=st_mintrap),
+    Part("spokes", check_spokes, {"quick": 9000, "thorough": 120000}, strategy=st_spokes),
 ]
